@@ -48,13 +48,42 @@ def fnum(x):
 
 
 def build(spec):
-    o = optic.Optic()
+    """spec['route']: 'direct' (default) | 'reuse' (an Optic that held a DIFFERENT lens, emptied with reset(), filled
+    again) | 'roundtrip' (to_dict -> Optic.from_dict).  Pickups are added after the route."""
+    route = spec.get('route', 'direct')
+    o = None
+    if route == 'reuse':
+        o = optic.Optic()
+        o.add_surface(index=0, radius=np.inf, thickness=np.inf)
+        o.add_surface(index=1, radius=33.0, thickness=4.0, material=IdealMaterial(n=1.7, k=0), is_stop=True)
+        o.add_surface(index=2, radius=-41.0, thickness=30.0)
+        o.add_surface(index=3)
+        o.set_aperture('EPD', 5.0)
+        o.set_field_type('angle')
+        o.add_field(y=0.0)
+        o.add_wavelength(0.6, is_primary=True)
+        try:
+            o.paraxial.f2()
+        except Exception:      # noqa
+            pass
+        o.reset()
+    o = _fill(spec, o)
+    if route == 'roundtrip':
+        o = optic.Optic.from_dict(o.to_dict())
+    for (src, attr, tgt, sc, off) in spec.get('pickups', []):
+        o.pickups.add(src, attr, tgt, scale=sc, offset=off)
+    o.update()
+    return o
+
+
+def _fill(spec, o=None):
+    o = optic.Optic() if o is None else o
     o.add_surface(index=0, radius=np.inf, thickness=np.inf)
     for i, s in enumerate(spec['surfs']):
         kw = dict(index=i + 1, radius=s.get('radius', np.inf) if s.get('radius') is not None else np.inf,
                   conic=s.get('conic', 0.0), thickness=s.get('thickness', 0.0), is_stop=bool(s.get('stop')))
         n = s.get('n')
-        kw['material'] = IdealMaterial(n=n, k=0) if n else 'air'
+        kw['material'] = 'mirror' if s.get('mirror') else (IdealMaterial(n=n, k=0) if n else 'air')
         st = s.get('type', 'standard')
         kw['surface_type'] = st
         if st != 'standard':
@@ -73,9 +102,6 @@ def build(spec):
         o.add_field(y=f)
     for j, w in enumerate(spec.get('wl', [0.55])):
         o.add_wavelength(w, is_primary=(j == 0))
-    for (src, attr, tgt, sc, off) in spec.get('pickups', []):
-        o.pickups.add(src, attr, tgt, scale=sc, offset=off)
-    o.update()
     return o
 
 
